@@ -139,7 +139,7 @@ def _find(tree, qual):
 
 
 def extract(repo):
-    """-> list of (file, qualname, [(text, lineno)], (first line, last line) or None)"""
+    """-> list of (file, qualname, [(text, lineno)], (def line, last line, first body line) or None)"""
     trees, res = {}, []
     for rel, qual in FUNCTIONS:
         if rel not in trees:
@@ -153,7 +153,8 @@ def extract(repo):
             res.append((rel, qual, [("<function not found>", 0)], None)); continue
         out = []
         _walk(fn.body, out)
-        res.append((rel, qual, out, (fn.lineno, fn.end_lineno)))
+        body = [st for st in fn.body if not _is_docstring(st)]
+        res.append((rel, qual, out, (fn.lineno, fn.end_lineno, body[0].lineno if body else fn.end_lineno)))
     return res
 
 
